@@ -59,16 +59,17 @@ TAGSPACE = tp.spaces.R1("x")
 class _Tagged(PointSampler):
     """stub inner sampler: every call returns a fresh one-row Points whose coordinate is the draw number"""
 
-    def __init__(self):
+    def __init__(self, space=None):
         super().__init__(n_points=1)
         self.calls = 0
         self.devices = []
         self.params = []
+        self.space = space or TAGSPACE
 
     def sample_points(self, params=Points.empty(), device="cpu", **kwargs):
         self.devices.append(device)
         self.params.append(params)
-        p = Points(torch.tensor([[float(self.calls)], [float(self.calls) + 0.5]]), TAGSPACE)
+        p = Points(torch.tensor([[float(self.calls)], [float(self.calls) + 0.5]]), self.space)
         self.calls += 1
         return p
 
@@ -186,6 +187,29 @@ def static_twins_case(R, M, second):
 
     return Case(name, body, goals, family="static/twins", params=dict(R=R, M=M, second=second), max_paths=R * R * 4 + 8,
                 max_decisions=6 * M + 16, max_forks_per_site=R + 4)
+
+
+def static_product_case(R, M, second):
+    """a PRODUCT of two individually static samplers (first factor: interval r, second: infinite or its own interval),
+    used M times: the first factor is redrawn after exactly r uses of the product"""
+    name = "static/product_of_static_samplers/second_%s/R%d_M%d" % (second, R, M)
+
+    def body(env):
+        r = env.integer("r", 1, R)
+        r2 = env.integer("r2", 1, R) if second == "sym" else None
+        a, b = _Tagged(), _Tagged(tp.spaces.R1("t"))
+        prod = a.make_static(r) * (b.make_static(r2) if r2 is not None else b.make_static())
+        tags = [_tag(prod.sample_points()) for _ in range(M)]
+        return dict(tags=tags, r=env.v(r), draws=a.calls)
+
+    def goals(o, L, env):
+        r = o["r"]
+        for t, tag in enumerate(o["tags"], start=1):
+            want = (t - 1) / r if env.symbolic else (t - 1) // int(r)
+            yield "first_factor_tag_is_floor((t-1)/r)[call%d]" % t, L.eq(tag, want)
+
+    return Case(name, body, goals, family="static/product_of_static_samplers", params=dict(R=R, M=M, second=second),
+                max_paths=R * R * 4 + 8, max_decisions=6 * M + 16, max_forks_per_site=R + 4)
 
 
 def static_inf_case(M, ctor, explicit):
@@ -441,6 +465,8 @@ def cases(tier):
         cs.append(static_plain_case(R, M, ctor))
         cs.append(static_inf_case(M, ctor, False))
     cs.append(static_inf_case(M, "make_static", True))
+    cs.append(static_product_case(min(R, 3), min(M, 8), "inf"))
+    cs.append(static_product_case(min(R, 3), min(M, 8), "sym"))
     cs.append(static_twins_case(min(R, 3), min(M, 10), "sym"))
     cs.append(static_twins_case(min(R, 3), min(M, 10), "inf"))
     cs.append(static_restatic_case(R, M, "sym", "sym"))
